@@ -6,8 +6,13 @@
 EXTENDS Sync, Json, Integers
 
 Trace == ndJsonDeserialize("trace.ndjson")
-VARIABLES l, pend       \* pend: bag (target -> count) of wake events still owed by the last Signal
-tvars == <<vars, l, pend>>
+VARIABLES l, pend,      \* pend: bag (target -> count) of wake events still owed by the last Signal
+          claims        \* bag of hook events <<op, owner, ok>> not yet claimed by the caller's return
+tvars == <<vars, l, pend, claims>>
+ClaimOps == {"cas.begin", "mrsw.bread", "mrsw.breadb", "mrsw.bwrite", "mrsw.bwriteb", "mrsw.upgrade"}
+Sigs == ClaimOps \X Proc \X BOOLEAN
+NoClaims == [s \in Sigs |-> 0]
+Claim(op, owner, ok) == claims' = [claims EXCEPT ![<<op, owner, ok>>] = @ + 1]
 Ev == Trace[l]
 Is(e) == l <= Len(Trace) /\ Trace[l].ev = e
 Step == l' = l + 1
@@ -15,59 +20,64 @@ Max(a, b) == IF a > b THEN a ELSE b
 NoPend == \A t \in DOMAIN pend : pend[t] = 0
 EmptyPend == [t \in 1..MaxIdx |-> 0]
 
-TInit == Init /\ l = 1 /\ pend = EmptyPend /\ TLCSet(1, 0)
+TInit == Init /\ l = 1 /\ pend = EmptyPend /\ claims = NoClaims /\ TLCSet(1, 0)
 
 TReset == /\ Is("reset") /\ Step /\ NoPend
           /\ casHeld' = {} /\ rd' = [p \in Proc |-> 0] /\ wr' = {} /\ wt' = [p \in Proc |-> None]
-          /\ cur' = 0 /\ subs' = {} /\ nsub' = 0 /\ pend' = EmptyPend
+          /\ cur' = 0 /\ subs' = {} /\ nsub' = 0 /\ pend' = EmptyPend /\ claims' = NoClaims
 
 (* ---- CheckAndSet ---- *)
-TCasBegin == /\ Is("cas.begin") /\ Step /\ UNCHANGED pend
+TCasBegin == /\ Is("cas.begin") /\ Step /\ Claim("cas.begin", Ev.owner, Ev.ok) /\ UNCHANGED pend
              /\ IF Ev.ok THEN CasBeginOK(Ev.owner) ELSE CasBeginFail(Ev.owner)
-TCasEnd == /\ Is("cas.end") /\ Step /\ UNCHANGED pend
+TCasEnd == /\ Is("cas.end") /\ Step /\ UNCHANGED claims /\ UNCHANGED pend
            /\ casHeld' = {} /\ UNCHANGED <<rd, wr, wt, cur, subs, nsub>>   \* End is unconditional in the code
 
 (* ---- MultiRSW ---- *)
-TBeginRead == /\ Is("mrsw.bread") /\ Step /\ UNCHANGED pend
+TBeginRead == /\ Is("mrsw.bread") /\ Step /\ Claim("mrsw.bread", "anon", Ev.ok) /\ UNCHANGED pend
               /\ IF Ev.ok THEN /\ CanRead /\ rd' = [rd EXCEPT !["anon"] = @ + 1] /\ Ev.readers = NReaders + 1
                                /\ UNCHANGED <<casHeld, wr, wt, cur, subs, nsub>>
                  ELSE BeginReadFail("anon")
-TBeginReadB == /\ Is("mrsw.breadb") /\ Step /\ UNCHANGED pend
+TBeginReadB == /\ Is("mrsw.breadb") /\ Step /\ Claim("mrsw.breadb", "anon", TRUE) /\ UNCHANGED pend
                /\ CanRead /\ rd' = [rd EXCEPT !["anon"] = @ + 1] /\ Ev.readers = NReaders + 1
                /\ UNCHANGED <<casHeld, wr, wt, cur, subs, nsub>>
-TEndRead == /\ Is("mrsw.eread") /\ Step /\ UNCHANGED pend
+TEndRead == /\ Is("mrsw.eread") /\ Step /\ UNCHANGED claims /\ UNCHANGED pend
             /\ rd["anon"] > 0 /\ rd' = [rd EXCEPT !["anon"] = @ - 1] /\ Ev.readers = NReaders - 1
             /\ UNCHANGED <<casHeld, wr, wt, cur, subs, nsub>>
-TBeginWrite == /\ Is("mrsw.bwrite") /\ Step /\ UNCHANGED pend
+TBeginWrite == /\ Is("mrsw.bwrite") /\ Step /\ Claim("mrsw.bwrite", Ev.owner, Ev.ok) /\ UNCHANGED pend
                /\ IF Ev.ok THEN BeginWriteOK(Ev.owner) ELSE BeginWriteFail(Ev.owner)
-TBeginWriteB == /\ Is("mrsw.bwriteb") /\ Step /\ UNCHANGED pend
+TBeginWriteB == /\ Is("mrsw.bwriteb") /\ Step /\ Claim("mrsw.bwriteb", Ev.owner, TRUE) /\ UNCHANGED pend
                 /\ CanWrite /\ wr' = wr \cup {Ev.owner} /\ UNCHANGED <<casHeld, rd, wt, cur, subs, nsub>>
-TEndWrite == /\ Is("mrsw.ewrite") /\ Step /\ UNCHANGED pend
+TEndWrite == /\ Is("mrsw.ewrite") /\ Step /\ UNCHANGED claims /\ UNCHANGED pend
              /\ wr # {} /\ wr' = {} /\ UNCHANGED <<casHeld, rd, wt, cur, subs, nsub>>
-TUpgrade == /\ Is("mrsw.upgrade") /\ Step /\ UNCHANGED pend
+TUpgrade == /\ Is("mrsw.upgrade") /\ Step /\ Claim("mrsw.upgrade", Ev.owner, Ev.ok) /\ UNCHANGED pend
             /\ IF Ev.ok THEN /\ NReaders = 1 /\ wr = {} /\ rd' = [p \in Proc |-> 0] /\ wr' = {Ev.owner}
                              /\ UNCHANGED <<casHeld, wt, cur, subs, nsub>>
                ELSE (wr # {} \/ NReaders > 1) /\ UNCHANGED vars
 (* a goroutine found blocked in a blocking acquire long after everybody else finished *)
-TStuck == /\ Is("stuck") /\ Step /\ UNCHANGED pend /\ UNCHANGED vars
+TStuck == /\ Is("stuck") /\ Step /\ UNCHANGED claims /\ UNCHANGED pend /\ UNCHANGED vars
           /\ IF Ev.kind = "r" THEN ~CanRead ELSE ~CanWrite
 
 (* ---- ReadyTarget ---- *)
-TSub == /\ Is("rt.sub") /\ Step /\ NoPend /\ UNCHANGED pend
+TSub == /\ Is("rt.sub") /\ Step /\ UNCHANGED claims /\ NoPend /\ UNCHANGED pend
         /\ Ev.cur = cur /\ Ev.closed = (Ev.target <= cur) /\ Subscribe(Ev.target)
-TSignal == /\ Is("rt.signal") /\ Step /\ NoPend
+TSignal == /\ Is("rt.signal") /\ Step /\ UNCHANGED claims /\ NoPend
            /\ Ev.ignored = (Ev.index <= cur) /\ Signal(Ev.index) /\ Ev.cur = cur'
            /\ pend' = [t \in 1..MaxIdx |-> IF Ev.index <= cur THEN 0 ELSE Cardinality({s \in WakeSet(Ev.index) : s.target = t})]
-TWake == /\ Is("rt.wake") /\ Step /\ Ev.target \in DOMAIN pend /\ pend[Ev.target] > 0
+TWake == /\ Is("rt.wake") /\ Step /\ UNCHANGED claims /\ Ev.target \in DOMAIN pend /\ pend[Ev.target] > 0
          /\ pend' = [pend EXCEPT ![Ev.target] = @ - 1] /\ UNCHANGED vars
-TUnsub == /\ Is("rt.unsub") /\ Step /\ NoPend /\ UNCHANGED pend
+TUnsub == /\ Is("rt.unsub") /\ Step /\ UNCHANGED claims /\ NoPend /\ UNCHANGED pend
           /\ \E s \in subs : s.live /\ s.target = Ev.target /\ Unsubscribe(s)
-TRtReset == /\ Is("rt.reset") /\ Step /\ NoPend /\ UNCHANGED pend /\ RtReset
+TRtReset == /\ Is("rt.reset") /\ Step /\ UNCHANGED claims /\ NoPend /\ UNCHANGED pend /\ RtReset
 (* harness observation of subscription #id's channel at a quiescent point *)
-TObs == /\ Is("obs.chan") /\ Step /\ NoPend /\ UNCHANGED pend /\ UNCHANGED vars
+TObs == /\ Is("obs.chan") /\ Step /\ UNCHANGED claims /\ NoPend /\ UNCHANGED pend /\ UNCHANGED vars
         /\ \E s \in subs : s.id = Ev.id /\ s.target = Ev.target /\ Ev.closed = ~s.open
 
-TNext == \/ TReset \/ TCasBegin \/ TCasEnd \/ TBeginRead \/ TBeginReadB \/ TEndRead \/ TBeginWrite
+(* the caller observed this result: some hook event must explain it *)
+TRet == /\ Is("ret") /\ Step /\ UNCHANGED pend /\ UNCHANGED vars
+        /\ claims[<<Ev.op, Ev.owner, Ev.ok>>] > 0
+        /\ claims' = [claims EXCEPT ![<<Ev.op, Ev.owner, Ev.ok>>] = @ - 1]
+
+TNext == \/ TRet \/ TReset \/ TCasBegin \/ TCasEnd \/ TBeginRead \/ TBeginReadB \/ TEndRead \/ TBeginWrite
          \/ TBeginWriteB \/ TEndWrite \/ TUpgrade \/ TStuck \/ TSub \/ TSignal \/ TWake \/ TUnsub
          \/ TRtReset \/ TObs
 TSpec == TInit /\ [][TNext]_tvars
